@@ -1,7 +1,7 @@
 (* C01 — Two endpoints built on the library interoperate, even across transport loss.
    Statements only.  Nothing else may be added to this file. *)
 From MQ Require Import Base.Prelude Alloc.Alloc Framing.Framing Framing.FramingProofs Conn.Types Conn.ConnRecord Conn.Step
-                       Corr.ConnTrace Conn.Scope Conn.Session Conn.IdsQuota Conn.Own Conn.OwnStep Conn.Run Conn.PairQos Conn.PairQos5 Conn.PairSeq.
+                       Corr.ConnTrace Conn.Scope Conn.Session Conn.IdsQuota Conn.Own Conn.OwnStep Conn.Run Conn.PairQos Conn.PairQos5 Conn.PairSeq Conn.PairSeq5.
 
 (* what the pair property rests on, each proved for ALL states of one endpoint:
    (i) delivery in any fragmentation is the same byte stream (C09) *)
@@ -133,6 +133,19 @@ Theorem C01_pair_sequence_exactly_once : forall gs gr ps cs cr,
 Proof. exact run_seq_ok. Qed.
 Print Assumptions C01_pair_sequence_exactly_once.
 
+(* ... and the same for v5.0 (no topic alias in play; Receive Maximum and Maximum Packet Size negotiated): the pair
+   invariant now says that BOTH Receive Maximum accounts are at zero between exchanges — every slot an exchange takes
+   is given back when it completes (C12: the vacancy returns to the maximum) *)
+Theorem C01_pair_sequence_exactly_once_v5 : forall gs gr ps cs cr,
+  pair_inv5 gs gr cs cr -> Forall (fun p => v5_pub p 1 \/ v5_pub p 2) ps ->
+  match run_seq5 gs gr cs cr ps with
+  | Done cs' cr' d => d = ps /\ pair_inv5 gs gr cs' cr'
+  | AppPre => True
+  | Fail => False
+  end.
+Proof. exact run_seq5_ok. Qed.
+Print Assumptions C01_pair_sequence_exactly_once_v5.
+
 (* the tie of those statements to the step function that the correspondence runs against the code *)
 Theorem C01_send_call_is_send_publish : forall g c p q, c_version c = V311 -> v311_pub p q ->
   step g c (OSend p) = bindr (send_publish_v311 c p) (fun '(c', e) => Ok (c', e, [])).
@@ -238,6 +251,28 @@ Example C01_pair_sequence_nonvacuous :
   | Some cs, Some cr =>
       match run_seq gs gr cs cr ps with
       | Done cs' cr' d => d = ps /\ c_qos2 cr' = [] /\ c_store cs' = [] /\ a_pool (c_pid cs') = [(1, 65535)]
+      | _ => False
+      end
+  | _, _ => False
+  end.
+Proof. vm_compute. repeat split; reflexivity. Qed.
+
+(* ... and the v5.0 one: Receive Maximum 2 towards the server, 3 towards the client, Maximum Packet Size 50; five messages
+   with identifier reuse; at the end the vacancy is 2 again and nothing is outstanding on either side *)
+Example C01_pair_sequence_v5_nonvacuous :
+  let gs := mkCfg RClient 65535 2 in
+  let gr := mkCfg RServer 65535 2 in
+  let cn := mkPkt 1 V50 0 0 false false [] None 0 0 24 false 0 true 0 None (Some 3) (Some 100) None None in
+  let ca := mkPkt 2 V50 0 0 false false [] None 0 0 11 true 0 false 0 None (Some 2) (Some 50) None None in
+  let ops_s := [OSetAutoPub true; OSend cn; ORecv [32;9;0;0;6;33;0;2;39;0;0;0;50] (PROk ca)] in
+  let ops_r := [OSetAutoPub true; ORecv [16;13;0;4;77;81;84;84;5;2;0;0;0;0;0] (PROk cn); OSend ca] in
+  let pb := fun id q pay => mkPkt 3 V50 id q false false [116] None pay 0 (8 + pay) false 0 false 0 None None None None None in
+  let ps := [pb 1 1 0; pb 1 2 3; pb 7 2 0; pb 7 1 5; pb 1 2 1] in
+  match run_state gs (conn_new gs V50) ops_s, run_state gr (conn_new gr V50) ops_r with
+  | Some cs, Some cr =>
+      match run_seq5 gs gr cs cr ps with
+      | Done cs' cr' d => d = ps /\ vacancy cs' = Some 2 /\ c_publish_recv cr' = [] /\ c_qos2 cr' = [] /\ c_store cs' = [] /\
+                          a_pool (c_pid cs') = [(1, 65535)]
       | _ => False
       end
   | _, _ => False
